@@ -511,7 +511,7 @@ theorem step_changed_marks (q : Q) (s : State) (now : Nat) (ev : Ev) (d : Nat) (
       have hm : m = true := hok.2
       subst hm
       have e : d' = d ∧ k' = k := by
-        simp only [evTouches, executed, List.any_nil, Bool.false_or, Bool.and_eq_true, decide_eq_true_eq] at ht
+        simp only [evTouches, executed, List.any_nil, Bool.false_or] at ht
         simpa using ht
       obtain ⟨e1, e2⟩ := e
       subst e1; subst e2
